@@ -208,6 +208,18 @@ CHECKS["C11"] = dict(
     design="§7 C11",
 )
 
+CHECKS["C18"] = dict(
+    text=("Lean: the validation (Model/Align.lean: lengthsOk, chainOk, accepts - the Boolean content of _validate_input_lengths_and_indexes / "
+          "_preprocess_arguments / check_data_inputs_aligned) accepts a call iff every array argument has the number of key rows and every pandas "
+          "argument carries the keys' index (accepts_iff_aligned; with lengthsOk_iff / chainOk_iff: the pairwise zip(indexes, indexes[1:]) chain and "
+          "len(set(lens)) == 1 are equivalent to all-equal), so misaligned calls are rejected and aligned ones never are. Correspondence: the whole "
+          "table public operation x array argument x perturbation is executed; for each call the abstraction (lengths, index identities) is sent to "
+          "the Lean driver and the implementation must raise iff the model rejects."),
+    note="'rejected' = any Python exception. The untimed top-level ema(values) has one array argument (nothing to misalign). Integer-position masks / slices are exempt by design.",
+    technique="Lean 4 proof (accepts_iff_aligned by list induction) + exhaustive differential table (operation x argument x perturbation) of raise-vs-return against the Lean validator",
+    design="§7 C18",
+)
+
 NOT_APPLICABLE: list[dict] = []
 
 
